@@ -3,8 +3,8 @@
    model/MemCfg.v (constants regenerated from the source, gen/GenMemConst.v).
    run w64 = the faithful model (size_t arithmetic mod 2^64); all op sequences, all oracles. *)
 From Coq Require Import List ZArith Permutation.
-From LJT Require Import model.MemMgr model.TjInit model.MemCfg gen.GenMemConst
-  proofs.MemMgrProofs proofs.MemMgrWrap proofs.MemMgrLimits proofs.TjInitProofs proofs.MemMgrExamples.
+From LJT Require Import model.MemMgr model.TjInit model.DestBuf model.MemCfg gen.GenMemConst
+  proofs.MemMgrProofs proofs.MemMgrWrap proofs.MemMgrLimits proofs.TjInitProofs proofs.DestBufProofs proofs.MemMgrExamples.
 Import ListNotations.
 Local Open Scope Z_scope.
 
@@ -137,7 +137,43 @@ Theorem C14_tj3init_handler_frees_only_refuted : exists c ty oracle sz csz dsz,
 Proof. exact tj3_init_handler_frees_only_refuted. Qed.
 Print Assumptions C14_tj3init_handler_frees_only_refuted.
 
+(* (7) destination buffer (model/DestBuf.v): for every sequence of images through one destination manager -- any buffer
+   mode (library-allocated, caller-supplied, previous result reused), any number of reallocations, any exit (success,
+   TurboJPEG-level failure without longjmp, libjpeg error, failed initial allocation), the application freeing or
+   keeping earlier results -- the buffer is handed over or freed exactly once: no double free, the library never frees
+   a block of the application, nothing remains once the application has released what it holds.  Hypothesis [good]:
+   newbuffer is cleared on every jpeg_mem_dest call (or every call not reusing the manager's own buffer) and every
+   failing exit with an open image calls term_destination. *)
+Theorem C14_destbuf_handover_exactly_once : forall cf cs, good cf -> DestBuf.safe (final cf cs).
+Proof. exact destbuf_safe. Qed.
+Print Assumptions C14_destbuf_handover_exactly_once.
+
+(* ... which holds for the code as found in the source (jdatadst.c, jdatadst-tj.c, the bailout epilogues of
+   tj3Compress*, tj3CompressFromYUVPlanes8, tj3Transform) *)
+Theorem C14_destbuf_source_configuration_safe : forall cs,
+  DestBuf.safe (final dcfg_tj cs) /\ DestBuf.safe (final dcfg_ljpeg cs).
+Proof. exact destbuf_src_safe. Qed.
+Print Assumptions C14_destbuf_source_configuration_safe.
+
+Theorem C14_destbuf_cleared_only_at_creation_refuted : exists cs,
+  b_stolen (final {| pol := ResetFirstOnly; term_on_throw := true; term_on_longjmp := true |} cs) > 0 /\
+  b_badfree (final {| pol := ResetFirstOnly; term_on_throw := true; term_on_longjmp := true |} cs) > 0.
+Proof. exact destbuf_first_only_refuted. Qed.
+Print Assumptions C14_destbuf_cleared_only_at_creation_refuted.
+
+Theorem C14_destbuf_term_only_in_handler_refuted : exists cs,
+  b_live (final {| pol := ResetUnlessReused; term_on_throw := false; term_on_longjmp := true |} cs) <> [] /\
+  b_badfree (final {| pol := ResetUnlessReused; term_on_throw := false; term_on_longjmp := true |} cs) > 0.
+Proof. exact destbuf_handler_only_refuted. Qed.
+Print Assumptions C14_destbuf_term_only_in_handler_refuted.
+
 (* ------------------------------------------------------------ non-vacuity *)
+Example C14_ex_destbuf :
+  let cs := [mkcall MLib 2 EFinish false; mkcall MCaller 1 EFinish false; mkcall MReuse 1 ELongjmp true;
+             mkcall MLib 0 EInitFail false; mkcall MReuse 2 EThrow false; mkcall MLib 1 EFinish false; mkcall MReuse 3 EFinish false] in
+  (10 <=? b_nxt (final dcfg_tj cs)) = true /\ b_live (run_calls dcfg_tj ds0 cs) <> [] /\ b_live (final dcfg_tj cs) = [].
+Proof. exact destbuf_nonvacuous. Qed.
+
 Example C14_ex_tj3init :
   (let '(ok, h) := tj3_init_destroy w64 ex_cfg false ITransform (empty_heap [false; false; false; true]) 1000 [64; 88] [64; 200; 48; 56] in
    ok = false /\ length (live h) = 2%nat) /\
